@@ -10,6 +10,6 @@ PairSM == {"state", "mprocess"}
 PairPG == {"povm", "gate"}
 PairLG == {"lindbladian", "gate"}
 PairLS == {"lindbladian", "state"}
-QuickReads == {"var", "reps", "derive"}
-AllReads == {"var", "reps", "copy", "roundtrip", "derive", "physproj", "flags"}
+QuickReads == {"var", "reps", "derive", "closures"}
+AllReads == {"var", "reps", "copy", "roundtrip", "derive", "physproj", "flags", "closures"}
 =============================================================================
